@@ -23,6 +23,8 @@ func runC10(c *an.Ctx) string {
 	errorFieldFidelity(c, "R10.5")
 	r106Conversions(c)
 	r107Memo(c)
+	encoderNilGuards(c, "R10.8", "grpc/codegen/templates/request_encoder.go.tpl", "grpc/codegen/templates/response_encoder.go.tpl")
+	r10InvokeOrder(c)
 	return explanationC10
 }
 
@@ -380,4 +382,51 @@ func r107Memo(c *an.Ctx) {
 	}
 	c.Okf(rule, "grpc/codegen#memo-keys", "%d functions: every seen-set is tested and filled under the same key", n)
 	tplRangeIndexRule(c, rule, "grpc/codegen/templates")
+}
+
+// r10InvokeOrder (R10.9): the client invoker attaches the metadata set to the
+// outgoing context after the request encoder has filled it: on every path from
+// the encoder call to the remote call, metadata.NewOutgoingContext is called.
+// (Attaching before encoding hands the transport the set as it was before the
+// encoder replaced or filled it.)
+func r10InvokeOrder(c *an.Ctx) {
+	const rule = "R10.9"
+	f := c.MustFunc(rule, "grpc", "cliInvoker.Invoke")
+	if f == nil {
+		return
+	}
+	info := f.Pkg.TypesInfo
+	g := an.NewCFG(info, f.Decl.Body)
+	fieldCall := func(field string) func(*ast.CallExpr) bool {
+		return func(call *ast.CallExpr) bool {
+			se, ok := an.Unparen(call.Fun).(*ast.SelectorExpr)
+			return ok && se.Sel.Name == field && info.Selections[se] != nil && info.Selections[se].Kind() == types.FieldVal
+		}
+	}
+	encs, _ := g.FindCalls(fieldCall("encoder"))
+	fns, _ := g.FindCalls(fieldCall("fn"))
+	attach, _ := g.FindCalls(func(call *ast.CallExpr) bool {
+		return an.CalleeName(info, call) == "google.golang.org/grpc/metadata.NewOutgoingContext"
+	})
+	if len(encs) == 0 || len(fns) == 0 || len(attach) == 0 {
+		c.Add(an.Obligation{Rule: rule, Construct: f.Name, Status: an.LOST, Detail: fmt.Sprintf("encoder calls %d, remote calls %d, NewOutgoingContext calls %d", len(encs), len(fns), len(attach))})
+		return
+	}
+	isAttach := func(l an.Loc) bool {
+		for _, a := range attach {
+			if a == l {
+				return true
+			}
+		}
+		return false
+	}
+	ok := true
+	for _, e := range encs {
+		for _, r := range fns {
+			if g.Reaches(e, r, isAttach) {
+				ok = false
+			}
+		}
+	}
+	c.Check(ok, rule, f.Name+"#encode≺attach≺call", f.Decl.Pos(), "every path from the request encoder to the remote call attaches the metadata to the outgoing context in between", "a path runs from the request encoder to the remote call without attaching the metadata set to the outgoing context afterwards: metadata the encoder produced does not travel")
 }
